@@ -19,9 +19,14 @@ def intLitsOf (tbl : List (String × List Int)) (fn : String) : List Int :=
   | some p => p.2
   | none => []
 
-/-- the Julian-Day constants of `LunarYear.compute` (literals > 10^6, in source order):
+/-- the Julian-Day literals of `LunarYear.compute` (literals > 10^6, in source order):
 `[1724360, 1729794, 1807724, 1808699, 1729794, 1808699, 1729794, 1808699]` on the unchanged tree -/
-def reformConsts : List Int := (intLitsOf calendar.intLits "LunarYear.compute").filter (· > 1000000)
+def reformLits : List Int := (intLitsOf calendar.intLits "LunarYear.compute").filter (· > 1000000)
+
+/-- the DISTINCT Julian-Day constants in ascending order, `[1724360, 1729794, 1807724, 1808699]`: the two relabelled spans
+`[A, B)` and `[C, D)`. Taken by value, not by position, so that reordering or merging the comparisons in the source (a behaviour-
+preserving rewrite) does not change the model, while a changed value still does. -/
+def reformConsts : List Int := (reformLits.eraseDups).mergeSort (fun a b => decide (a ≤ b))
 
 def rcA : Int := listGetD reformConsts 0   -- start of the first relabelled span
 def rcB : Int := listGetD reformConsts 1   -- its end (a month starting here is "12 / leap 11")
